@@ -1,9 +1,78 @@
 import Driver.Util
+import StoneVerif.Model.Lex
 /-! Protocol handlers of the `fe.*` suites. -/
 open Lean
 namespace Driver.Fe
 
-def handle (op : String) (_j : Json) : Except String Json := do
-  throw s!"unknown op {op}"
+/-! ------------------------------------------------------------------------------------------------
+## `fe.lex` (C11): line-level lexer model
+
+request  `{"op":"fe.lex","lines":[L, ...]}` with one `L` per *physical* line:
+  `{"i": <leading whitespace characters>, "k": "e" | "s" | "c" | "g", "pure": bool (k = "c"),
+    "toks": [T, ...] (k = "g"), "trail": "none" | "spaces" | "comment" (k = "g"), "open": bool}`
+  `T` = `"("` | `")"` | `<nat>` (opaque token id); `open` = the line ends inside a string literal.
+reply    `{"toks": ["N" | "I" | "D" | "(" | ")" | <nat>, ...], "errs": ["notDiv" | "contIndent" | "unmatchedRpar", ...],
+           "logical": <number of logical lines>}`
+------------------------------------------------------------------------------------------------ -/
+section FeLex
+open StoneVerif.Lex
+
+def tkOfJson (j : Json) : Except String Tk :=
+  match j with
+  | .str "(" => pure .lpar
+  | .str ")" => pure .rpar
+  | _ => do
+    let n ← j.getNat?
+    pure (.other n)
+
+def plineOfJson (j : Json) : Except String PLine := do
+  let i ← jnat j "i"
+  let k ← jstr j "k"
+  let openStr := match jopt j "open" with
+    | some (.bool b) => b
+    | _ => false
+  let body ← match k with
+    | "e" => pure Body.empty
+    | "s" => pure Body.spaces
+    | "c" => do pure (Body.comment (← jbool j "pure"))
+    | "g" => do
+      let ts ← (← jarr j "toks").toList.mapM tkOfJson
+      let tr ← match (← jstr j "trail") with
+        | "none" => pure Trail.none
+        | "spaces" => pure Trail.spaces
+        | "comment" => pure Trail.comment
+        | t => throw s!"bad trail {t}"
+      pure (Body.sig ts tr)
+    | _ => throw s!"bad line kind {k}"
+  pure { line := { indent := i, body }, openStr }
+
+def tokToJson : Tok → Json
+  | .newline => "N"
+  | .indent => "I"
+  | .dedent => "D"
+  | .tk .lpar => "("
+  | .tk .rpar => ")"
+  | .tk (.other i) => Json.num (i : Nat)
+
+def errToJson : LexErr → Json
+  | .notDiv => "notDiv"
+  | .contIndent => "contIndent"
+  | .unmatchedRpar => "unmatchedRpar"
+
+def handleLex (j : Json) : Except String Json := do
+  let ps ← (← jarr j "lines").toList.mapM plineOfJson
+  let ls := join ps
+  let o := lex ls
+  pure (ok [("toks", Json.arr (o.toks.map tokToJson).toArray),
+            ("errs", Json.arr (o.errs.map errToJson).toArray),
+            ("logical", Json.num (ls.length : Nat))])
+
+end FeLex
+/-! end of the `fe.lex` section ------------------------------------------------------------------ -/
+
+def handle (op : String) (j : Json) : Except String Json := do
+  match op with
+  | "fe.lex" => handleLex j
+  | _ => throw s!"unknown op {op}"
 
 end Driver.Fe
